@@ -89,7 +89,15 @@ func Separators() {
 	g1 := vrt.Choice(total)
 	g2 := -1
 	if vrt.Tier() > 0 {
-		g2 = vrt.Choice(total)
+		// a second varying gap: the next one, the one after, or the last gap of the program
+		switch vrt.Choice(3) {
+		case 0:
+			g2 = g1 + 1
+		case 1:
+			g2 = g1 + 2
+		default:
+			g2 = total - 1
+		}
 	}
 	max := 1 + vrt.Tier()
 	s := ""
